@@ -362,3 +362,53 @@ def _(c):
 
 
 _register_same()
+
+
+# ---------------------------------------------------------------------------
+# EventLoopThread.force_stop -- the part of stopping the secondary loop that is sequential code: what the callable
+# handed to the loop does.  (Which thread runs it, and races with new calls, stay outside contracts: DESIGN 4.)
+# "for coroutine methods the caller receives the result or the exception raised" also while the owner loop is
+# stopping: every task of the loop is cancelled, and the loop is stopped only after ALL of them have finished --
+# however they end -- so that each caller's relayed future gets its outcome.
+# ---------------------------------------------------------------------------
+TASK = ext_class("task", cancel=effect())
+
+
+def _loop_call_soon(I, self_obj, args, kwargs):
+    I.ctx.emit("loop.call_soon_threadsafe", self_obj, tuple(args), dict(kwargs))
+    return None
+
+
+STOPPABLE_LOOP = ext_class("thread_loop", stop=effect())
+STOPPABLE_LOOP.methods["call_soon_threadsafe"] = ExtMethod("call_soon_threadsafe", fn=_loop_call_soon)
+ELT = ext_class("event_loop_thread", fields={"loop": T.ext(STOPPABLE_LOOP)}, stable_fields=("loop",))
+
+
+@external("asyncio.tasks.all_tasks")
+def _(I, args, kwargs):
+    # the tasks of that loop: two arbitrary tasks (concrete spine)
+    I.ctx.emit("asyncio.all_tasks", None, tuple(args), dict(kwargs))
+    return [SObj(TASK, {}, tag="task0"), SObj(TASK, {}, tag="task1")]
+
+
+def gathers(fx):
+    return [r for r in fx if r[0] == "asyncio.gather.created"]
+
+
+@contract("bellows.thread.EventLoopThread.force_stop.cancel_tasks_and_stop_loop", props=["C20"])
+def _(c):
+    c.closure("self", T.ext(ELT))
+    c.ensures(
+        "post.tasks_of_this_loop_are_cancelled_on_it",
+        lambda self, fx: [r[3] for r in fx if r[0] == "asyncio.all_tasks"] == [{"loop": self.loop}]
+        and len([r for r in fx if r[0] == "loop.call_soon_threadsafe" and r[1] is self.loop]) == 2
+        and [r for r in fx if r[0] == "task.cancel"] == [],
+    )
+    c.ensures(
+        "post.loop_stops_only_after_every_task_has_finished",
+        lambda self, fx: len(gathers(fx)) == 1
+        and len(gathers(fx)[0][2]) == 2
+        and gathers(fx)[0][3].get("return_exceptions") is True
+        and len([r for r in fx if r[0] == "gather_future.add_done_callback"]) == 1
+        and [r for r in fx if r[0] == "thread_loop.stop"] == [],
+    )
